@@ -400,6 +400,34 @@ theorem C11_retokenize_partial (iw : Nat) (hiw : 0 < iw) (c d i a : List Row) (t
   refine ⟨text, toks, ?_, h2, h3⟩
   rw [hModule_eq, ← hrows, h1]; rfl
 
+/-- **Re-tokenization, as a certificate evaluated per parse tree.**  `retokTree iw t`
+(Spec/FmtRetok.lean; evaluated by the compiled driver, op `RETOK`, on every case of the
+check) folds the children of the module node, builds the rows `_module` renders, and
+*evaluates* the hypotheses of `C11_retokenize_partial` row by row with the tokenizer model
+(fewer than two columns; content without leading / trailing blank and line terminator;
+`_tokenize_line` accepts it), then computes `expectLeaves`.  **Whenever it answers
+`some E`, the model formats `t` to a text that the tokenizer model accepts with exactly
+the leaves `E`** — the leaves of the rendered rows in order, one end-of-line token per row,
+Indent / Dedent by the rows' levels.  The harness compares `E` with what the real tokenizer
+makes of the real formatter's output (`retokenize_theorem_applies`).  What remains with the
+oracle alone: that these leaves are the content leaves of `t`. -/
+theorem C11_retokenize_checked (iw : Nat) (hiw : 0 < iw) (t : Tree) (E : List Leaf)
+    (h : retokTree iw t = some E) :
+    ∃ text toks, formatTree iw t = some (.str text) ∧
+      tokenize tokTable.pats text = .ok toks ∧ toks.map leafOf = E :=
+  retokTree_sound iw hiw t E h
+
+/-! Non-vacuity (kernel-evaluated): `exTree` ("-- hi  " / "# c \t") is accepted, with the
+leaves of `-- hi` / `# c`. -/
+theorem exTree_retok : retokTree 3 exTree =
+    some [("Documentation", "-- hi".toList), nlLeaf, ("Comment", "# c".toList), nlLeaf] := by
+  decide +kernel
+
+example : ∃ text toks, formatTree 3 exTree = some (.str text) ∧
+    tokenize tokTable.pats text = .ok toks ∧
+    toks.map leafOf = [("Documentation", "-- hi".toList), nlLeaf, ("Comment", "# c".toList), nlLeaf] :=
+  C11_retokenize_checked 3 (by decide) exTree _ exTree_retok
+
 /-- **…with the hypothesis moved in front of the global passes**: `_intersperse`,
 `_indent_blanks_and_comments`, `_add_blank_rows_on_dedent` and
 `_strip_empty_leading_trailing_comment_lines` only add rows without columns and change
